@@ -746,7 +746,7 @@ func main() {
 	run.CheckFn = "Store.check"
 	run.DiagFn = ""
 	run.CaseType = "Store.case"
-	run.ShardSize = 40
+	run.ShardSize = 25
 	run.Rule = "histories of 30-90 (quick) / 30-200 (thorough) operations on a fresh in-memory sqlite beacon DB resp. path DB; " +
 		"pool of 8 segments x 4 variants (strictly newer, equal version, newer by 1 ns with older expiry; peers change " +
 		"FullID and interfaces), 3 segment types, hidden-path groups {0,7,9,2^64-1} incl. empty and repeated lists, 9 usages; " +
@@ -758,7 +758,7 @@ func main() {
 	run.Prelude = glit.Rewrite(prelude(bp, pp))
 	rng := vgen.NewRand(run.Seed)
 	quick := run.Tier != "thorough"
-	n := run.Count(120, 6000)
+	n := run.Count(100, 6000)
 	for i := 0; i < n; i++ {
 		r := rng.Fork(uint64(i))
 		isBeacon := i%2 == 0
